@@ -177,6 +177,11 @@ static void model(void)
     if (m_fqdn_at) {
       int at2 = last_at(m_len);
       if (in_percenthack(m_addr + at2 + 1, m_len - (unsigned int) at2 - 1)) { m_undetermined = 1; break; }
+      /* ... and the mirror image: the text after the converted % (which contains an @) is itself listed in percenthack - an
+       * entry with an @ in it, which no domain is - so the code goes on where the literal reading (domain = text after the
+       * FINAL @) stops.  Found by the thorough tier on the unchanged tree (%%@@Y with percenthack entries "@" and "Y"): my
+       * model was one-sided, the documents are as silent here as above. */
+      if (in_percenthack(m_addr + pc + 1, m_len - (unsigned int) pc - 1)) { m_undetermined = 1; break; }
     }
   }
   at = last_at(m_len);
